@@ -1,14 +1,39 @@
 """C03: interval discipline and honest status."""
-from . import solvercheck, oracles
+from . import solvercheck, oracles, sweep, gen
 from .p_common import TB, PROFILES
+
+
+def landing_builder(seed, n, defaults, tag):
+    """first_step >= the whole interval at tight tolerances: the very first attempt is the landing step and is (usually)
+    rejected by the error test, so the run has to forget that it was 'last' (seeded change C03-c, Radau)"""
+    import random
+    rng = random.Random(seed)
+    methods = [m for m in sweep.available_methods() if m != "RK4"]
+    cases, metas = [], {}
+    for g in range(n):
+        kw, meta = sweep.base_case(rng, g, methods[g % len(methods)], defaults)
+        span = abs(kw["xend"] - kw["x0"])
+        kw["first_step"] = span * rng.choice([1.0, 1.0, 2.5, 10.0, 25.0])
+        kw["rtol"] = rng.choice([1e-5, 1e-7, 1e-9])
+        kw["atol"] = kw["rtol"] * 1e-2
+        if rng.random() < 0.3:
+            kw["dense"] = True
+        meta["tolmode"] = "mixed"
+        meta["landing_first"] = True
+        cid = "%s%d" % (tag, g)
+        cases.append(gen.solve_case(cid, **kw))
+        metas[cid] = (meta, kw)
+    return cases, metas
 
 
 def check():
     return solvercheck.run(
         "C03", "C03.v",
         [dict(profile=PROFILES["config"], n_quick=240, n_thorough=4000, full=True),
-         dict(profile=PROFILES["output"], n_quick=120, n_thorough=2000, full=True)],
+         dict(profile=PROFILES["output"], n_quick=120, n_thorough=2000, full=True),
+         dict(builder=landing_builder, n_quick=90, n_thorough=1500, full=True)],
         [oracles.oracle_C03], TB,
-        "configuration sweep (direction x span 1e-12..12 x first_step x max_step x t_eval x dense x events x 4 explicit methods); "
+        "configuration sweep (direction x span 1e-12..12 x first_step (incl. >= span) x max_step x t_eval x dense x events x all 6 methods), plus "
+        "first_step >= interval at tight tolerances (rejected landing attempts); "
         "every case replayed bit-for-bit on the extracted model, and the property's clauses checked on the implementation's "
         "samples and its full call log; non-trivial = at least 2 accepted steps; distinct = distinct case lines")
